@@ -23,8 +23,8 @@ var Check = &ev.Check{
 	Level: "exploration",
 	Rule: "every wire value of the C02 domain (all 11 wire types; scalars over boundary alphabets incl. 8 double bit patterns; " +
 		"containers/structs of width<=2 over the full scalar alphabet at depth 1 and over representatives of the previous level at depth 2 (quick) / 3 (thorough); " +
-		"field ids from {1,-1,0,32767,-32768}; empty containers of every element type; thorough adds binaries of 1MiB-1, 1MiB, 1MiB+1). " +
-		"Values are distinct by construction; non-trivial = every value (each has its own byte image). Per value the value encoder, the stream writer, Decode, ReadValue, Decode over a short-reading ReaderAt and the primitive stream walk under read segmentations (whole, all-1-byte, first-read-1-byte, zero-length reads, every single cut for encodings <=24 bytes) are compared with the independent spec codec.",
+		"field ids from {1,-1,0,32767,-32768}; empty containers of every element type; thorough adds binaries of 1MiB-1, 1MiB, 1MiB+1); values holding three binaries above 1 MiB; values nested 63..66, 100 and 300 levels deep (list in list, map in map, struct in struct, struct/set alternation, struct chain held in a list). " +
+		"Values are distinct by construction; non-trivial = every value (each has its own byte image). Per value the value encoder, the stream writer, Decode, ReadValue, Decode over a short-reading ReaderAt and the primitive stream walk under read segmentations (whole, all-1-byte, first-read-1-byte, zero-length reads, every single cut for encodings <=24 bytes) are compared with the independent spec codec; a decoded value is then encoded twice more and read again (it must survive being encoded).",
 	Run: run,
 	Budget: func(t string) time.Duration {
 		return map[string]time.Duration{"quick": 3 * time.Minute, "thorough": 25 * time.Minute}[t]
